@@ -1279,3 +1279,20 @@ func firstLines(s string, n int) string {
 	}
 	return strings.Join(l, " | ")
 }
+
+// lazyOAM hands the host's address manager the real observedaddrs.Manager, which can only be built once the
+// swarm exists (simhost builds swarm and host in one call). Pure delegation.
+type lazyOAM struct{ m *observedaddrs.Manager }
+
+func (l *lazyOAM) Addrs(minObservers int) []ma.Multiaddr {
+	if l.m == nil {
+		return nil
+	}
+	return l.m.Addrs(minObservers)
+}
+func (l *lazyOAM) AddrsFor(local ma.Multiaddr) []ma.Multiaddr {
+	if l.m == nil {
+		return nil
+	}
+	return l.m.AddrsFor(local)
+}
